@@ -323,25 +323,16 @@ def check_unsafe(run, S, inv):
             analysed.add(f.split(' @ ')[-1])
     counts = {}
     for s in sites:
-        key = '%s:unsafe:%s' % (PROP, s['owner'])
+        # census only (evidence): WHICH unsafe operations exist is not a rule - a rewrite may trade a transmute for a raw
+        # pointer cast or for safe code.  What is required of every unsafe site, of whatever kind, is below: it must lie in
+        # a function that is inlined into an analysable root, i.e. its effect on every component is part of a value that
+        # the K1/K3 view rules of this check compare leaf by leaf (a cast to a wrong view type is 'not analysable').
         for op in s['ops']:
             if 'call' in op:
-                if not op.get('unsafe_callee'):
-                    continue
-                k = op['call']
-                counts[k] = counts.get(k, 0) + 1
-                ok = k in UNSAFE_OK
-                run.ob('%s:kind:%s' % (key, k), ok, rule='K10 unsafe census', expected='one of the enumerated unsafe operations: %s' % sorted(UNSAFE_OK), found=k, where=s['span'])
-                if k == 'core::ptr::swap':
-                    srcs = op['arg_src']
-                    pat = all(re.match(r'^&mut self\[[^\]]+\](\[[^\]]+\])?$', x.strip()) for x in srcs)
-                    run.ob('%s:swap-args' % key, pat and len(srcs) == 2, rule='K10 unsafe census', expected='both operands are &mut self[..] places', found=srcs, where=s['span'])
-                if k.endswith('get_unchecked'):
-                    pass
+                if op.get('unsafe_callee'):
+                    counts[op['call']] = counts.get(op['call'], 0) + 1
             elif 'deref_raw' in op or 'ptr_cast' in op:
                 counts['raw'] = counts.get('raw', 0) + 1
-                run.ob('%s:raw' % key, s['owner'].startswith('<quaternion::Quaternion<S> as') or s['owner'].startswith('<&') and 'quaternion::Quaternion' in s['owner'],
-                       rule='K10 unsafe census', expected='raw pointer casts only in the quaternion array/tuple views', found=s['owner'], where=s['span'], nontrivial=False)
     # every unsafe block lies inside a function body that was inlined into an analysable root
     bodies = []
     for r in S.roots.values():
